@@ -118,7 +118,11 @@ func (m *c19Model) searchRoles(parents func(*FuncInfo) map[ast.Node]ast.Node) []
 			}
 			s := &c19Search{fiB: fi, outer: outer, lo: lo, hi: hi, caller: fi, loVar: lo, hiVar: hi, rLo: -1, rHi: -1}
 			out = append(out, s)
-			pLo, pHi := c19ParamIdx(fi, lo), c19ParamIdx(fi, hi)
+			// the parameters the bounds start from (the bounds themselves, or what their struct fields are initialised with)
+			pLo, pHi := -1, -1
+			if pl, ph := m.boundParam(fi, lo), m.boundParam(fi, hi); pl != nil && ph != nil {
+				pLo, pHi = c19ParamIdx(fi, pl), c19ParamIdx(fi, ph)
+			}
 			if pLo >= 0 && pHi >= 0 {
 				s.caller = nil
 				for _, g := range m.reachList {
